@@ -6,7 +6,7 @@ import c07, c06
 
 CONFIGS_QUICK = ["F_all", "F_nool"]  # every configuration whose cfg-gated code the property depends on
 CONFIGS_THOROUGH = ["F_all", "F_nool"]
-TECHNIQUE = 'static analysis: decision table of StartTrimmer::trim, merge/drop-set rules of XmlReader, call-graph rule for ignored content, who-may-call rule for text-piece unescaping (resolver on every piece)'
+TECHNIQUE = 'static analysis: decision table of StartTrimmer::trim, merge/drop-set rules of XmlReader, call-graph rule for ignored content, who-may-call rule for text-piece unescaping (resolver on every piece), skip-without-buffer table, one-whitespace-notion rule, unescaping rules (C10) re-evaluated'
 EXPLANATION = (
     "StartTrimmer::trim table per Event variant (Comment, PI, Decl dropped without touching trim_start; DocType, Start, End, "
     "Eof passed and the next text start-trimmed; CData passed, next text not trimmed; Text dropped iff trim_start and empty "
